@@ -274,7 +274,9 @@ func (self *Compiler) compileExpr(node ast.AnalyzedExpression) {
 
 		fields := make(map[string]*value.Value)
 		for _, field := range node.Fields {
-			fields[field.Key.Ident()] = value.ZeroValue(field.Expression.Type())
+			// Only a placeholder: every field is assigned its initializer below.
+			// (Not every type has a zero value, e.g. functions or `never`.)
+			fields[field.Key.Ident()] = value.NewValueNull()
 		}
 
 		object := *value.NewValueObject(fields)
